@@ -83,8 +83,9 @@ def _unique_tasks(tasks):
     m = set()
     res = []
     for t in tasks:
-        if t.id not in m:
-            m.add(t.id)
+        # different tasks (i.e. from different WBS) can have the same id: compare objects, not ids
+        if id(t) not in m:
+            m.add(id(t))
             res.append(t)
 
     return res
